@@ -348,6 +348,16 @@ def _reduce_rules(chk, repo):
         ok_v, ok_t, det, det_t = None, None, f'returns {fmt(p.ret)[:200]}', ''
         if p.ret == whole:
             ok_v, ok_t, det_t = True, True, 'the sums are returned as numpy accumulates them'
+        else:
+            # the same construction with other block counts: the row blocks are counted from the row count of a slice, the column
+            # blocks from its column count (and the depth is the first axis, spelled out or as -1)
+            rs = [a_ for a_ in nf.value_atoms(p.ret) if is_app(a_, 'm:reshape') and len(a_[2]) == 6 and a_[2][0] == S('img')]
+            if len(rs) == 1:
+                d = rs[0][2][1:]
+                depth_ok = d[0] in (nf.index(sh, C(0)), C(-1))
+                if not (depth_ok and d[1] == n1 and d[3] == n2 and d[2] == fac and d[4] == fac):
+                    ok_v = False
+                    det = f'reshape to ({", ".join(fmt(x)[:30] for x in d)}): not (depth, n1//f, f, n2//f, f)'
         ra = p.ret.single_atom() if isinstance(p.ret, Poly) else None
         if ra is not None and ra[0] == 'loop':
             for lp in p.state.loops:
@@ -675,6 +685,7 @@ def non_overlap_rule(chk, repo, clause):
     fs = repo.func('segmented.hex_segments')
     _, sp, _ = analyse(repo, fs, config={'antialias': FALSE})
     excl, other = None, False
+    forgets = False
     for p in returns(sp):
         found = False
         stack = nf.strip_apps(p.ret, ('asarray', 'copy', 'array', 'sum'))
@@ -697,6 +708,16 @@ def non_overlap_rule(chk, repo, clause):
                             if any(x[0] == 'loop' and x[1].split('@')[0] == nm for x in carried) and \
                                     any(x == ta or (x[0] == 'idx' and x[1] == ta[1]) for x in nf.value_atoms(v)):
                                 feeds = True
+                                # ... on top of what was claimed before: the set of claimed samples only grows
+                                def joins_old(v_):
+                                    for x in [v_.single_atom()] + list(nf.value_atoms(v_)) if isinstance(v_, Poly) else []:
+                                        if x is not None and is_app(x, ('bitor', 'or', 'logical_or', 'maximum', 'add', 'numpy.logical_or')) and \
+                                                any(isinstance(y, Poly) and y.single_atom() is not None and y.single_atom()[0] == 'loop'
+                                                    and y.single_atom()[1].split('@')[0] == nm for y in x[2]):
+                                            return True
+                                    return False
+                                if not joins_old(v):
+                                    forgets = True
                     if zero and carried and feeds:
                         found = True
                     else:
@@ -707,7 +728,10 @@ def non_overlap_rule(chk, repo, clause):
                 if e.kind == 'write' and e.data.get('how') == 'setitem' and not e.in_loop and e.depth == 0:
                     other = True
         excl = found if excl is None else (excl and found)
-    if closed is False:
+    if closed and forgets:
+        verdict, det = False, ('the record of claimed samples is replaced by the samples of the current segment instead of being added to: '
+                               'only collisions with the segment just before are resolved')
+    elif closed is False:
         verdict, det = True, 'the non-antialiased hexagon is open on its edges: neighbours cannot share a sample'
     elif closed and excl:
         verdict, det = True, 'hexagon edges are closed; hex_segments removes the samples claimed by earlier segments from later ones'
